@@ -36,9 +36,11 @@ def confirm(pid, var):
     shutil.copy(os.path.join(d, "demo.rs"), demo)
     rc2, o2 = sh(["cargo", "test", "--offline", "--test", name], cwd=wt)
     sh("git checkout -- . && git clean -fdq -e target", cwd=wt)
-    ok = (rc0 == 0 and rc_a == 0 and rc1 == 0 and [s[1] for s in suite][:2] == ["120", "6"] and rc2 != 0 and "test result: FAILED" in o2)
+    # a demo fails by a failed assertion, by aborting (stack overflow: C20) or by no longer compiling (Send/Sync bound: C18)
+    fails = rc2 != 0 and ("test result: FAILED" in o2 or "SIGABRT" in o2 or "error[E0277]" in o2)
+    ok = (rc0 == 0 and rc_a == 0 and rc1 == 0 and [s[1] for s in suite][:2] == ["120", "6"] and fails)
     record({"phase": "confirm", "id": pid, "variant": var, "demo_passes_clean": rc0 == 0, "patch_applies": rc_a == 0,
-            "suite_with_patch": suite, "demo_fails_with_patch": rc2 != 0 and "test result: FAILED" in o2, "confirmed": ok,
+            "suite_with_patch": suite, "demo_fails_with_patch": fails, "confirmed": ok,
             "detail": "" if ok else (o0[-400:] + "\n--\n" + oa[-300:] + "\n--\n" + o1[-400:] + "\n--\n" + o2[-400:])})
     return ok
 
